@@ -73,6 +73,7 @@ func (m *vfMqtt) IsConnectionOpen() bool  { return true }
 func (m *vfMqtt) Connect() mqtt.Token     { return vfToken{} }
 func (m *vfMqtt) Disconnect(quiesce uint) {}
 func (m *vfMqtt) Publish(topic string, qos byte, retained bool, payload interface{}) mqtt.Token {
+	vf.Yield() // a round trip to the broker is a scheduling point
 	b, _ := payload.([]byte)
 	m.Published = append(m.Published, vfPublished{Topic: topic, Payload: b})
 	if m.broker != nil {
@@ -87,6 +88,7 @@ func (m *vfMqtt) Publish(topic string, qos byte, retained bool, payload interfac
 	return vfToken{}
 }
 func (m *vfMqtt) Subscribe(topic string, qos byte, callback mqtt.MessageHandler) mqtt.Token {
+	vf.Yield() // a round trip to the broker is a scheduling point
 	if m.refuse {
 		return vfToken{err: errRefused}
 	}
